@@ -350,6 +350,15 @@ type ReadPlan struct {
 	// FailAt >= 0: the Read that would deliver byte offset FailAt returns FailErr instead (after delivering what precedes).
 	FailAt  int
 	FailErr error
+	// FaultCalls > 0: only the first FaultCalls ContainerLogs calls for the container get the fault; later
+	// calls (a client that asks again) are served whole.
+	FaultCalls int `json:"fault_calls,omitempty"`
+	// OnFail, if set, runs just before the fault is delivered (e.g. cancels the query's context).
+	OnFail func() `json:"-"`
+	// OnReach, if set, runs once, right after the read that delivers byte offset ReachAt-1 (the reader has
+	// handed over everything up to ReachAt; e.g. the user presses Ctrl-C at that moment).
+	ReachAt int    `json:"reach_at,omitempty"`
+	OnReach func() `json:"-"`
 }
 
 type ledger struct {
@@ -385,15 +394,16 @@ func (l *ledger) ev(s string) {
 }
 
 type planReader struct {
-	l      *ledger
-	name   string
-	data   []byte
-	off    int
-	plan   ReadPlan
-	rng    uint64
-	closed bool
-	zero   bool
-	failed bool
+	l       *ledger
+	name    string
+	data    []byte
+	off     int
+	plan    ReadPlan
+	rng     uint64
+	closed  bool
+	zero    bool
+	failed  bool
+	reached bool
 }
 
 func newPlanReader(l *ledger, name string, data []byte, plan ReadPlan) *planReader {
@@ -435,6 +445,9 @@ func (p *planReader) Read(b []byte) (int, error) {
 	if p.plan.FailErr != nil && p.plan.FailAt >= 0 && p.plan.FailAt < len(p.data) {
 		if p.off >= p.plan.FailAt {
 			p.failed = true
+			if p.plan.OnFail != nil {
+				p.plan.OnFail()
+			}
 			p.l.mu.Lock()
 			p.l.fired++
 			p.l.ev(fmt.Sprintf("fault %s @%d", p.name, p.off))
@@ -465,6 +478,10 @@ func (p *planReader) Read(b []byte) (int, error) {
 	copy(b, p.data[p.off:p.off+n])
 	p.off += n
 	p.l.note(p.name, p.off, false)
+	if p.plan.OnReach != nil && !p.reached && p.off >= p.plan.ReachAt {
+		p.reached = true
+		p.plan.OnReach()
+	}
 	if p.plan.EOFWithData && p.off == len(p.data) && !(p.plan.FailErr != nil && p.plan.FailAt >= 0 && p.plan.FailAt < len(p.data)) {
 		p.l.note(p.name, p.off, true)
 		return n, io.EOF
@@ -505,6 +522,8 @@ type FakeDocker struct {
 
 	Containers []*FakeContainer
 	ListErr    error
+	// ListErrFrom > 0: only the listings from that call number on (1-based) fail with ListErr.
+	ListErrFrom int
 	// Gate, if set, is called at the start of every ContainerLogs with the container id, and may block.
 	Gate func(id string)
 	// Done, if set, is called when ContainerLogs is about to return (after the reader exists).
@@ -523,8 +542,9 @@ type FakeDocker struct {
 func (f *FakeDocker) ContainerList(_ context.Context, opts apicontainer.ListOptions) ([]types.Container, error) {
 	f.mu.Lock()
 	f.ListCalls++
+	nth := f.ListCalls
 	f.mu.Unlock()
-	if f.ListErr != nil {
+	if f.ListErr != nil && nth >= f.ListErrFrom {
 		f.L.mu.Lock()
 		f.L.fired++
 		f.L.mu.Unlock()
@@ -597,6 +617,12 @@ func fakeListFilterMatch(opts apicontainer.ListOptions, ctr types.Container) boo
 
 func (f *FakeDocker) ContainerLogs(_ context.Context, id string, opts apicontainer.LogsOptions) (io.ReadCloser, error) {
 	f.mu.Lock()
+	earlier := 0
+	for _, c := range f.Calls {
+		if c.ID == id {
+			earlier++
+		}
+	}
 	f.Calls = append(f.Calls, LogsCall{ID: id, Since: opts.Since, Until: opts.Until, Opts: opts})
 	f.mu.Unlock()
 	if f.Gate != nil {
@@ -620,7 +646,11 @@ func (f *FakeDocker) ContainerLogs(_ context.Context, id string, opts apicontain
 		if f.FilterByTime && f.Frames != nil {
 			data = EncodeFrames(filterFrames(f.Frames[id], opts.Since, opts.Until))
 		}
-		return newPlanReader(&f.L, id, data, c.Plan), nil
+		plan := c.Plan
+		if plan.FaultCalls > 0 && earlier >= plan.FaultCalls {
+			plan.FailErr, plan.FailAt, plan.OnFail, plan.OnReach = nil, -1, nil, nil
+		}
+		return newPlanReader(&f.L, id, data, plan), nil
 	}
 	return nil, fmt.Errorf("verif: no such container %q", id)
 }
